@@ -247,7 +247,12 @@ class Session:
                 ev["err"] = o.err
             if fr.raised:
                 ev["fresh_err"] = fr.err
-            ok, where = (o.raised == fr.raised, "outcome class") if (o.raised or fr.raised) else G.fp_equal(o.fp, fr.fp)
+            if o.raised or fr.raised:
+                ok, where = o.raised == fr.raised, "outcome class"
+            elif act == "ToXarray" and args[0] == "ugrid":
+                ok, where = self._export_ok(o, fr, src, h)
+            else:
+                ok, where = G.fp_equal(o.fp, fr.fp)
             ev["res_ok"] = bool(ok)
             if not ok:
                 ev["where"] = where
@@ -255,7 +260,9 @@ class Session:
             if not o.raised:
                 if act == "ToXarray":
                     self.exports[(h, args[0])] = o.value
-                if act in ("ToGdf", "ToPoly", "ToLine", "DataToGdf", "ToXarray", "Access", "ComputeAreas"):
+                # exported datasets are not tracked: C15 promises stability of returned geometry,
+                # C19 the caller->grid direction only
+                if act in ("ToGdf", "ToPoly", "ToLine", "DataToGdf", "Access", "ComputeAreas"):
                     self.returned.append(("%s%s@%d" % (act, list(args), h), o.value, o.fp, act, h))
                     self.returned = self.returned[-12:]
         # ---- state after the step
@@ -316,6 +323,47 @@ class Session:
             if not fa.raised and G.fp_equal(o.fp, fa.fp)[0]:
                 return _abstract_key(act, alt)
         return ["unknown"]
+
+    def _export_ok(self, o, fr, src, h):
+        """C08: an exported dataset differs from a fresh grid's export only by also containing
+        derived variables computed so far, each holding the fresh value; C07: its topology
+        metadata names only what it contains."""
+        ds = o.value
+        names = [str(n) for n in ds.variables]
+        fnames = list(fr.fp.items[0])
+        ffp = dict(zip(fnames, fr.fp.items[1:]))
+        missing = [n for n in fnames if n not in names]
+        if missing:
+            return False, "export lacks %s" % missing
+        for n in names:
+            if n == "grid_topology":
+                continue
+            cur = G._fp_dataarray(ds[n])
+            if n in ffp:
+                ok, where = G.fp_equal(cur, ffp[n])
+            else:
+                ref = FRESH.var(src, self.muts[h], n)
+                if ref.raised:
+                    return False, "export holds %s, which a fresh grid cannot derive" % n
+                ok, where = G.fp_equal(cur, ref.fp)
+            if not ok:
+                return False, "export variable %s: %s" % (n, where)
+        if "grid_topology" not in names:
+            return False, "export has no grid_topology"
+        at = ds["grid_topology"].attrs
+        fat = dict(ffp["grid_topology"].items[2]) if "grid_topology" in ffp else {}
+        for k, v in at.items():
+            if fat.get(k) == repr(v):
+                # the fresh export says the same: whether THAT is self-consistent is C07's question
+                continue
+            if k.endswith("_dimension") and k != "topology_dimension":
+                if str(v) not in ds.dims:
+                    return False, "grid_topology names dimension %s=%s which the export lacks" % (k, v)
+            elif k.endswith("_coordinates") or k.endswith("_connectivity"):
+                for tok in str(v).split():
+                    if tok not in names:
+                        return False, "grid_topology names %s=%s which the export lacks" % (k, tok)
+        return True, ""
 
     def _earlier_changed(self, skip_last, act, h, args):
         out = []
@@ -398,6 +446,7 @@ def replay(history, sources):
     """history: list of [act, h, args]; sources: {1: name, 2: name}.  Returns the event list."""
     s = Session(sources)
     events = []
+    replay.last_init = {str(h): sorted(st) for h, st in s.prev_store.items()}
     for act, h, args in history:
         if h not in s.grids:
             events.append({"act": act, "h": h, "args": list(args), "skipped": True})
